@@ -397,6 +397,66 @@ def task_matcher(t):
     return {'viol': [v.to_json() for vs in byfp.values() for v in vs[:2]], 'n': n, 'hits': hits}
 
 
+# ---- rule equality: RemoveMatch(Y) while holding X, for every ordered pair of a pool of near-equal rules ------------
+
+def equality_pool():
+    """Rules that differ from one another in ONE respect - a key present / absent / present with an empty value, the
+    argument number, the kind of argument test, the value, eavesdrop - plus different spellings of the same rule (key
+    order, quoting) which must count as equal."""
+    singles = [b"type='signal'", b"type='method_call'", b"sender='com.example.S'", b"sender='com.example.T'", b"interface='a.b'", b"interface='a.bc'",
+               b"member='M'", b"member='MM'", b"path='/a'", b"path='/a/b'", b"path_namespace='/a'", b"path_namespace='/a/b'",
+               b"destination='com.example.X'", b"destination='com.example.Y'",
+               b"arg0=''", b"arg0='x'", b"arg0='xy'", b"arg1=''", b"arg1='x'", b"arg2='z'", b"arg63='x'", b"arg62='x'",
+               b"arg0path=''", b"arg0path='/a/'", b"arg1path='/a/'", b"arg0namespace='a.b'", b"arg0namespace='a'", b"eavesdrop='true'"]
+    combos = [b"arg0='',arg1='x'", b"arg0='x',arg1=''", b"arg0='x',arg1='x'", b"arg1='x',arg0='x'", b"arg1='',arg2='z'", b"arg0='',arg2='z'",
+              b"arg0='',arg1='',arg2='z'", b"arg0path='/a/',arg1='x'", b"arg0='/a/',arg1='x'", b"arg0path='',arg1='x'", b"arg0namespace='a',arg1='x'",
+              b"arg0='a',arg1='x'", b"type='signal',arg0=''", b"type='signal',arg0='x'", b"arg0='x',type='signal'", b"member='M',eavesdrop='true'",
+              b"member='M',arg0=''", b"member='M',arg1=''", b"arg0=x", b"path='/a',arg0=''", b"arg62='x',arg63='x'", b"arg63='x',arg62='x'",
+              b"arg62='',arg63='x'"]
+    return singles + combos
+
+
+def task_equality(held_idx):
+    """For each held rule X (index list) and every Y of the pool: AddMatch(X); RemoveMatch(Y) must succeed exactly when Y
+    is the same rule as X (and then X is gone: a second RemoveMatch(X) fails); otherwise X is still held and still works."""
+    pool = equality_pool()
+    out, hits = [], {}
+    n = 0
+    for xi in held_idx:
+        case = {'part': 'equality', 'held': xi}
+        try:
+            s = MatchSession()
+            vs = []
+            for yi in range(len(pool)):
+                if not s.add_rule('R1', pool[xi], vs, 'equality'):
+                    break
+                s.remove_rule('R1', pool[yi], vs, 'holding %r:' % pool[xi])
+                s.check_dump_counts(vs, 'after RemoveMatch(%r) while holding %r' % (pool[yi], pool[xi]))
+                for _ in range(len(s.rules['R1'])):
+                    s.remove_rule('R1', s.rules['R1'][-1].text, vs, 'cleanup after RemoveMatch(%r):' % pool[yi])
+                    if vs:
+                        break
+                if vs:
+                    break
+                s.check_dump_counts(vs, 'after removing everything (held %r, tried %r)' % (pool[xi], pool[yi]))
+                n += 1
+                if vs:
+                    break
+            hits['equality-pairs'] = hits.get('equality-pairs', 0) + len(pool)
+            for k, v in s.hits.items():
+                hits[k] = hits.get(k, 0) + v
+            for v in vs:
+                v.case = case
+            out.extend(vs)
+        except HarnessDied as e:
+            out.append(crash_violation(e, case))
+            worker_bus().h.close()
+    byfp = {}
+    for v in out:
+        byfp.setdefault(v.fingerprint, []).append(v)
+    return {'viol': [v.to_json() for vs in byfp.values() for v in vs[:2]], 'n': n, 'hits': hits}
+
+
 # ---- rules that name unique connection names, across disconnects of OTHER connections --------------
 
 class UniqueSession(BusSession):
@@ -669,6 +729,8 @@ def run(ctx):
     combos = singles + pairs
     for i in range(0, len(combos), 8):
         tasks.append((task_matcher, combos[i:i + 8]))
+    neq = len(equality_pool())
+    tasks += [(task_equality, list(range(i, min(i + 4, neq)))) for i in range(0, neq, 4)]
     uscn = list(unique_scenarios())
     tasks += [(task_unique, uscn[i:i + 6]) for i in range(0, len(uscn), 6)]
     fscn = list(fanout_scenarios())
@@ -676,6 +738,7 @@ def run(ctx):
     pool = Pool()
     nparse = nprobe = nquote = nuniq = 0
     nfan = 0
+    neqdone = 0
     done = 0
     try:
         for r in pool.imap(_dispatch, tasks):
@@ -693,6 +756,8 @@ def run(ctx):
                 nuniq += r['n']
             elif any(k.startswith('fanout-') for k in r['hits']):
                 nfan += r['n']
+            elif 'equality-pairs' in r['hits']:
+                neqdone += r['n']
             else:
                 nprobe += r['n']
             if ctx.expired():
@@ -706,7 +771,7 @@ def run(ctx):
     ctx.coverage.update({
         'states': st['states'] + len(combos), 'transitions': st['transitions'] + nparse + nprobe,
         'traces_validated_against_impl': st['transitions'] + nparse + nprobe,
-        'rule_strings': nparse, 'rule_x_message_probes': nprobe, 'quoting_rules': len(qrules), 'quoting_probes': nquote, 'unique_name_scenarios': len(uscn), 'unique_name_probes': nuniq, 'fanout_scenarios': len(fscn), 'fanout_probes': nfan, 'history_states': st['states'], 'history_transitions': st['transitions'],
+        'rule_strings': nparse, 'rule_x_message_probes': nprobe, 'quoting_rules': len(qrules), 'quoting_probes': nquote, 'unique_name_scenarios': len(uscn), 'unique_name_probes': nuniq, 'fanout_scenarios': len(fscn), 'fanout_probes': nfan, 'equality_pairs': neqdone, 'history_states': st['states'], 'history_transitions': st['transitions'],
         'history_depth': st['completed_depth'], 'history_fixpoint': st['fixpoint'],
         'bound': 'parser: all concatenations of <= %d of %d lexical pieces%s + %d templated/boundary rules; matcher: %d single rules and %d rule pairs x %d probe messages; '
                  'histories: 2 holders x %d-rule pool (pairs differing in one value), add/remove/disconnect/reconnect, BFS depth %d' %
@@ -733,6 +798,9 @@ def replay(case):
         return [Violation.from_json(v) for v in r['viol']]
     if case.get('part') == 'quoting':
         r = task_quoting([bytes.fromhex(case['rule'])])
+        return [Violation.from_json(v) for v in r['viol']]
+    if case.get('part') == 'equality':
+        r = task_equality([case['held']])
         return [Violation.from_json(v) for v in r['viol']]
     if case.get('part') == 'matcher':
         r = task_matcher([tuple(case['rules'])])
